@@ -621,6 +621,11 @@ def judge(P, roots, here):
         if (kind == "panic" or kind.startswith("unwrap")) and replaced and kind != "panic":
             rows.append((f, kind, bb, key, "NEEDS-REVIEW"))
             review.append((key, "a panic-capable site (%s) took the place of a reviewed one in this function: the obligation is open (not evidence of a violation)" % kind, f.where(bb)))
+        elif kind == "panic" and any(w in str((f.blocks[bb]["term"].get("span") or {}).get("macro") or "") for w in ("assert", "unreachable")):
+            # an assertion (assert!, debug_assert!, assert_eq!, unreachable!) states an invariant; whether
+            # it always holds is exactly what cannot be read off the code here
+            rows.append((f, kind, bb, key, "NEEDS-REVIEW"))
+            review.append((key, "a new assertion is reachable: whether the asserted condition always holds is not decided (the obligation is open, not evidence of a violation)", f.where(bb)))
         elif kind == "panic" or kind.startswith("unwrap"):
             rows.append((f, kind, bb, key, "UNREVIEWED"))
             problems.append((key, "a new explicit panic site (%s) is reachable: the code can abort where it used to return" % kind, f.where(bb)))
